@@ -137,11 +137,18 @@ def run_config(cli, wire, root, spec, nrep):
                 t2 = t.replace('"scratchw/%s/' % sid, '"scratchw/%s_k/' % sid)
                 if t2 != t:
                     open(pth, 'w').write(t2)
+    # C14: the migrated file compiles in the source package once the wire files are set aside
+    open(os.path.join(kd, 'main.go'), 'w').write('package main\n\nfunc main() {}\n')
+    bk0 = pl.run(['go', 'build', '-o', os.devnull, '.'], cwd=kd, env=wenv(), timeout=600)
+    if bk0.returncode != 0:
+        mig['compiles'] = False
+        lines_ = bk0.stderr.strip().splitlines()
+        mig['diag'] = re.sub(r'[\w/.-]*/', '', lines_[1] if len(lines_) > 1 else bk0.stderr)[:200]
+    os.remove(os.path.join(kd, 'main.go'))
     pg = pl.run([cli, 'kessoku.go'], cwd=kd, env=wenv(), timeout=300)
     if pg.returncode != 0:
         res['status'] = 'generator-refuses'
         res['notes'].append(pg.stderr[-500:])
-        mig['compiles'] = True
         return res
     inj = spec['injector']['name']
     ws = sig_of(os.path.join(d, 'wire_gen.go'), inj)
